@@ -97,29 +97,7 @@ func (u *Unit) computeLoops(fn *ssa.Function) {
 	for _, l := range hs {
 		seen := map[ssa.Value]bool{}
 		for b := range l.body {
-			for _, in := range b.Instrs {
-				switch x := in.(type) {
-				case *ssa.Store:
-					root, heapSort := u.storeRoot(x.Addr)
-					if root != nil {
-						if !seen[root] {
-							seen[root] = true
-							l.cells = append(l.cells, root)
-						}
-					} else if heapSort != "" {
-						l.heaps[heapSort] = true
-					} else {
-						l.allHeaps = true
-					}
-				case *ssa.MapUpdate:
-					l.allHeaps = true
-				case ssa.CallInstruction:
-					if !u.callIsPure(x.Common()) {
-						l.allHeaps = true
-					}
-					// closures called inside may write captured cells: handled by caller via bindings
-				}
-			}
+			u.scanEffects(b.Instrs, l, seen, 0, true)
 		}
 		sort.Slice(l.cells, func(i, j int) bool { return l.cells[i].Name() < l.cells[j].Name() })
 	}
@@ -540,6 +518,12 @@ func (u *Unit) havocLoop(s *State, fn *ssa.Function, l *Loop) {
 				s.heaps[k] = u.fresh("hv.loop", fmt.Sprintf("(Array Int %s)", so))
 			} else if strings.HasPrefix(k, "r:") {
 				s.heaps[k] = u.fresh("hv.loop", fmt.Sprintf("(Array Int (Array Int %s))", so))
+			} else if strings.HasPrefix(k, "m:") {
+				p := strings.SplitN(k[2:], ":", 2)
+				s.heaps[k] = u.fresh("hv.loop", fmt.Sprintf("(Array Int (Array %s %s))", p[0], p[1]))
+			} else if strings.HasPrefix(k, "mp:") {
+				p := strings.SplitN(k[3:], ":", 2)
+				s.heaps[k] = u.fresh("hv.loop", fmt.Sprintf("(Array Int (Array %s Bool))", p[0]))
 			}
 		}
 	}
@@ -1065,4 +1049,68 @@ func (u *Unit) sliceWrittenInPlace(fn *ssa.Function, sl ssa.Value) bool {
 		}
 	}
 	return false
+}
+
+// scanEffects collects what a list of instructions may write: cells of the enclosing function (top level only),
+// heaps by sort, or everything. Calls to in-module functions without contract are scanned recursively (they are inlined).
+func (u *Unit) scanEffects(instrs []ssa.Instruction, l *Loop, seen map[ssa.Value]bool, depth int, top bool) {
+	for _, in := range instrs {
+		switch x := in.(type) {
+		case *ssa.Store:
+			root, heapSort := u.storeRoot(x.Addr)
+			if root != nil {
+				if _, isAlloc := root.(*ssa.Alloc); isAlloc && !top {
+					continue // a local of an inlined callee
+				}
+				if !seen[root] {
+					seen[root] = true
+					l.cells = append(l.cells, root)
+				}
+			} else if heapSort != "" {
+				l.heaps[heapSort] = true
+			} else {
+				l.allHeaps = true
+			}
+		case *ssa.MapUpdate:
+			mt := x.Map.Type().Underlying().(*types.Map)
+			ks, vs := u.ss.sortOf(mt.Key()), u.ss.sortOf(mt.Elem())
+			l.heaps["m:"+ks+":"+vs] = true
+			l.heaps["mp:"+ks+":"+vs] = true
+		case ssa.CallInstruction:
+			c := x.Common()
+			if u.callIsPure(c) {
+				continue
+			}
+			if b, ok := c.Value.(*ssa.Builtin); ok && b.Name() == "append" {
+				continue
+			}
+			callee := c.StaticCallee()
+			if callee != nil && u.inModule(callee) && callee.Blocks != nil && depth < 3 {
+				if fc := u.p.contractFor(callee); fc == nil {
+					for _, b := range callee.Blocks {
+						u.scanEffects(b.Instrs, l, seen, depth+1, false)
+					}
+					continue
+				} else if mods := fc.modifies(); len(mods) > 0 {
+					for i, prm := range callee.Params {
+						for _, m := range mods {
+							if prm.Name() == m && i < len(c.Args) {
+								if pt, ok := c.Args[i].Type().Underlying().(*types.Pointer); ok {
+									l.heaps["p:"+u.ss.sortOf(pt.Elem())] = true
+								}
+							}
+						}
+					}
+					continue
+				}
+			}
+			if name := calleeName(c); u.p.libContract(name, len(c.Args)) != nil {
+				if fc := u.p.libContract(name, len(c.Args)); fc.Opts["modifies-iface-target"] != "" {
+					l.allHeaps = true // target type unknown statically here
+					continue
+				}
+			}
+			l.allHeaps = true
+		}
+	}
 }
